@@ -84,4 +84,30 @@ PROPS = {
                      "midasio, lz4, csv, clap are trusted (exercised, not modelled)"],
         trusted_extra=["the real binary is run as a process; its CSV is parsed by the harness"],
     ),
+    "C07": dict(
+        lean_modules=["AlphaG.Props.C07"],
+        required_theorems=["AlphaG.Chronobox." + t for t in [
+            "parse_sound_complete", "classify_spec", "parse_fields", "block_not_word",
+            "isParse_unique", "parse_rest_suffix", "parse_resume", "feedAll_eq_whole",
+            "parse_progress", "parse_total", "channelId_total", "channelId_ok_iff",
+            "boardId_total", "boardId_ok_iff"]],
+        harness=[("c07", ["dev", "release"])],
+        level_text="Lean theorems for all byte streams and all ways of cutting them: the parser consumes exactly the longest "
+                   "prefix of the documented grammar (parse_sound_complete, with an unambiguity proof), classifies all 2^32 "
+                   "words as specified by case analysis on the top byte (classify_spec), returns the documented fields, leaves "
+                   "a literal suffix as remainder, and feeding any list of pieces through the resume protocol equals parsing "
+                   "the concatenation (feedAll_eq_whole); progress and totality included.",
+        level_note="Trusted: winnow 0.6.1 combinator semantics, transcribed by hand as a second 'Raw' model layer that is "
+                   "proved equal to the direct recursive model (parse_total) and tied to the real chronobox_fifo by the "
+                   "differential run (all 2- and 3-cuts of short streams, random k-cuts of long ones, top-byte sweep).",
+        technique="Lean 4 theorems over a two-layer hand-written model (winnow combinator transcription = direct recursion) "
+                  "+ independent grammar + differential correspondence check",
+        design_ref="DESIGN.md section 6, C07",
+        rule="generators: top byte 0..=255 x boundary/random low bytes, single-bit flips of words and tag, hardware-like "
+             "streams with tricky block payloads, word soups with tuned invalid share, every truncation inside a block, block "
+             "followers, all 2-cuts of streams <= 600 B, all 3-cuts of short streams, random k-cuts (incl. empty pieces) of "
+             "streams up to ~170 kB, byte-by-byte feed, every u8 channel, board names; distinct by request line",
+        assumptions=["winnow 0.6.1 combinator semantics are transcribed by hand (Raw layer) and tied by the differential run",
+                     "CHRONOBOX_NAMES is hand-copied into the model (4 strings; checked by the board-id generator)"],
+    ),
 }
